@@ -171,7 +171,19 @@ def binary_family(rng, ctx, tmp, quick, fmt, k):
     rpos = len(idxs)
     bounds = [[s, e] for s, e, _ in target['records']]
     size = os.path.getsize(target['path'])
-    for cut in offsets(target, quick, rng):
+    all_cuts = offsets(target, quick, rng)
+    # the complete file is read first (N records), then cut inside the record that follows a complete prefix, then complete again
+    last_start = bounds[-1][0]
+    sample_cuts = set([c_ for c_ in all_cuts if c_ > last_start][1::7][:6] + [c_ for c_ in all_cuts if bounds[-2][0] < c_ < last_start][2::9][:3]) if len(bounds) >= 2 else set()
+    for cut in all_cuts:
+        if cut in sample_cuts:
+            # ... first the file as it was before the writer began the record that is cut: a complete, shorter file
+            prev_end = max([e_ for s_, e_ in bounds if e_ <= cut] + [0])
+            if prev_end > 0:
+                orig0 = cut_file(target['path'], prev_end)
+                c17.quiet(read)
+                with open(target['path'], 'wb') as f:
+                    f.write(orig0)
         orig = cut_file(target['path'], cut)
         r = c17.quiet(read)
         with open(target['path'], 'wb') as f:
@@ -181,6 +193,12 @@ def binary_family(rng, ctx, tmp, quick, fmt, k):
         cases.append({'id': cid, 'ev': 'trunc', 'fmt': fmt, 'reps': reps, 'par': par, 'sel': {'k': 'all'}, 'r': rpos, 'bounds': bounds, 'cut': cut,
                       'cutinfo': '%d of %d bytes' % (cut, size), 'known': known, 'res': res})
         ctx.nontrivial.add((fmt, k, cut))
+        # history: the writer finishes the record - the complete file is at the same place again and is read once more in the same process:
+        # every complete record is there, whatever an earlier (refused) read of the unfinished file left behind
+        if cut in sample_cuts:
+            r2 = c17.quiet(read)
+            cases.append({'id': cid + '-then-complete', 'ev': 'read', 'fmt': fmt, 'reps': reps, 'par': par, 'sel': {'k': 'all'},
+                          'res': c17.res_series(r2 if isinstance(r2, Exception) else objs(r2))})
     return cases
 
 
